@@ -23,7 +23,8 @@ pub fn def() -> PropDef {
         level: "exploration",
         rule: "exhaustive: all ordered pairs and all ordered triples over the finite evidence domain of the statement (Any, dynamic \
                bytes, free word usages x widths {unknown,8,32,160,192,256}, fixed-width usages at their width, mappings / dynamic \
-               arrays / fixed arrays of two lengths over two variables, one conflict). Laws on unification::merge with conflict \
+               arrays / fixed arrays (lengths 3, 4 and 2^64+3) over two variables, one conflict; in addition the empty struct and the \
+               empty packed encoding, whose merges allocate no variables). Laws on unification::merge with conflict \
                payloads dropped, emitted equalities closed into an equivalence and variables replaced by class representatives: \
                merge(a,b) = merge(b,a); merge(merge(a,b),c) = merge(a,merge(b,c)). distinct = the operand tuple; non-trivial = \
                operands pairwise distinct",
